@@ -128,6 +128,11 @@ impl Prop for C17 {
         scn.chain = (0..n).map(|i| marker_block(i as u64, 0, rng)).collect();
         let max_files = if big { 300 } else { 12 };
         scn.layouts = vec![layout_family(fam, n, rng, max_files)];
+        // a reorg history in the index (records the loader ignores) must not keep files open
+        if n <= 60 && rng.chance(1, 3) {
+            super::c04::add_ignored_competitors(&mut scn, rng);
+            h.stats.probe("index_with_ignored_competitors");
+        }
         scn.index = index_opts(rng);
         let cb = *rng.pick(&["csvdump", "csvdump", "unspentcsvdump", "balances", "simplestats", "opreturn"]);
         let mut r = RunSpec::new(cb);
